@@ -113,7 +113,11 @@ impl<'h> FindMatchesImpl<'h> {
         // The indices of the char_indices iterator are relative to the current offset.
         let haystack = self.input.get(self.offset..).unwrap_or_default();
         for _ in 0..n {
-            let result = self.scanner_impl.peek_from(haystack, char_indices.clone());
+            let mut result = self.scanner_impl.peek_from(haystack, char_indices.clone());
+            // Skip characters that no pattern matches, like `next_match` does.
+            while result.is_none() && char_indices.next().is_some() {
+                result = self.scanner_impl.peek_from(haystack, char_indices.clone());
+            }
             if let Some(mut matched) = result {
                 let token_type = matched.token_type();
                 Self::advance_char_indices_beyond_match(&mut char_indices, matched);
